@@ -6,4 +6,4 @@ Extraction Language OCaml.
 Set Extraction Optimize.
 Extraction "../ocaml/C12/c12_ext.ml" CmdModel.run_full CmdModel.run CmdModel.reports CmdModel.empty_trigger
   CmdModel.zero_trigger CmdModel.short_parity CmdModel.mismatch_trigger CmdModel.opts_compatible CmdModel.par_excluded
-  CmdModel.lock_try.
+  CmdModel.lock_try CmdModel.valid_blocks.
